@@ -49,6 +49,7 @@ def term_of(b, relpath, name, args, pre, genv, inline=None):
 
 def build(tier="quick", seed=0):
     b = Bundle("C17")
+    b.const_values[G] = 6.6743e-11
     pre = [sp.Gt(x, 0)]
     terms_py, terms_pyx = {}, {}
     # (A) + terms for (B)
